@@ -107,6 +107,27 @@ Proof.
   unfold it_ok in H. destruct (it_uaf _); auto; discriminate.
 Qed.
 
+(* ... and the teardown still completes: from every reachable state a round-robin continuation ends with
+   the record freed and both threads finished *)
+Definition it_finishing : list nat := concat (repeat [0; 1] 20).
+Lemma it_repaired_finishes :
+  forallb (fun s => let z := run it_st (it_step true) it_finishing s in it_freed z && (it_pc0 z =? 6) && (it_pc1 z =? 6))
+          (it_reach true) = true.
+Proof. vm_compute. reflexivity. Qed.
+Theorem iterator_repaired_teardown_completes : forall sched,
+  let z := run it_st (it_step true) it_finishing (run it_st (it_step true) sched it_init) in
+  it_freed z = true /\ it_uaf z = false.
+Proof.
+  intros sched z.
+  assert (H := all_schedules it_st it_st_beq internal_it_st_dec_bl (it_step true) 2 (it_bound true)
+                 (it_reach true) (fun s => let z := run it_st (it_step true) it_finishing s in it_freed z && (it_pc0 z =? 6) && (it_pc1 z =? 6))
+                 it_init it_repaired_closed it_repaired_init it_repaired_finishes sched).
+  cbv beta zeta in H. fold z in H. apply andb_true_iff in H. destruct H as [H _]. apply andb_true_iff in H. destruct H as [H _].
+  split; auto.
+  assert (E : z = run it_st (it_step true) (sched ++ it_finishing) it_init) by (unfold z, run; rewrite fold_left_app; reflexivity).
+  rewrite E. apply iterator_safe_when_ref_taken_under_list_mutex.
+Qed.
+
 (* faithful: the iterator reads the pointer, the client thread unlinks, sees refCount == 0 and frees,
    the iterator then increments the reference count of the freed record *)
 Definition it_witness : list nat := [0;0;0; 1;1;1;1;1; 0].
